@@ -536,8 +536,10 @@ theorem processBunch_allOKP {N : OutNode → Prop} (c : Conn) (x : Channel) (b :
   · exact h.of_chans rfl
   · split
     · split
-      · exact setChan_allOKP _ _ _ h hx
       · exact h.of_chans rfl
+      · split
+        · exact setChan_allOKP _ _ _ h hx
+        · exact h.of_chans rfl
     · exact receivedNextBunch_allOKP _ _ h
 
 theorem receivedRawBunch_allOKP {N : OutNode → Prop} (c : Conn) (bits : Bits) (h : AllOKP N c) : AllOKP N (c.receivedRawBunch bits).1 := by
